@@ -550,6 +550,16 @@ struct Runner {
 
 }  // namespace
 
+// ASan / UBSan reports do not pass through vfz::fail: print the decoded case next to them
+extern "C" void __asan_set_error_report_callback(void (*)(const char*));
+static void vf_print_case_on_report(const char*) {
+  if (g_desc) fprintf(stderr, "CASE: %s\n", g_desc->c_str());
+}
+extern "C" int LLVMFuzzerInitialize(int*, char***) {
+  __asan_set_error_report_callback(&vf_print_case_on_report);
+  return 0;
+}
+
 extern "C" int LLVMFuzzerTestOneInput(const uint8_t* data, size_t size) {
   vfz::begin_case(RULE);
   vfz::Dec d(data, size);
